@@ -151,6 +151,28 @@ trait Fam {
     fn g1prep(_p: &<Self::E as Pairing>::G1Affine) -> Option<String> {
         None
     }
+    /// subgroup points with special coordinates (x = 0, x = ±1, small x): legal inputs that random
+    /// multiples of the generator never produce
+    fn special_g1() -> Vec<<Self::E as Pairing>::G1Affine>;
+    fn special_g2() -> Vec<<Self::E as Pairing>::G2Affine>;
+}
+
+/// points of the prime-order subgroup whose x-coordinate is 0, ±1, ±2, 3 (where the curve has such a point and
+/// it lies in the subgroup, e.g. always when the cofactor is one)
+fn sw_special<C: SWCurveConfig>() -> Vec<ark_ec::short_weierstrass::Affine<C>> {
+    let mut v = Vec::new();
+    let one = C::BaseField::one();
+    let xs = [C::BaseField::zero(), one, -one, one + one, -(one + one), one + one + one];
+    for x in xs {
+        for greatest in [false, true] {
+            if let Some(p) = ark_ec::short_weierstrass::Affine::<C>::get_point_from_x_unchecked(x, greatest) {
+                if p.is_in_correct_subgroup_assuming_on_curve() && !v.contains(&p) {
+                    v.push(p);
+                }
+            }
+        }
+    }
+    v
 }
 
 fn tower12<P: Fp12Config>() -> String {
@@ -195,6 +217,12 @@ fn coeffs3<F: Field>(v: &[(F, F, F)]) -> String {
 
 struct BlsFam<P>(PhantomData<P>);
 impl<P: Bls12Config> Fam for BlsFam<P> {
+    fn special_g1() -> Vec<<Self::E as Pairing>::G1Affine> {
+        sw_special::<P::G1Config>()
+    }
+    fn special_g2() -> Vec<<Self::E as Pairing>::G2Affine> {
+        sw_special::<P::G2Config>()
+    }
     type E = Bls12<P>;
     fn header() -> String {
         format!(
@@ -216,6 +244,12 @@ impl<P: Bls12Config> Fam for BlsFam<P> {
 
 struct BnFam<P>(PhantomData<P>);
 impl<P: BnConfig> Fam for BnFam<P> {
+    fn special_g1() -> Vec<<Self::E as Pairing>::G1Affine> {
+        sw_special::<P::G1Config>()
+    }
+    fn special_g2() -> Vec<<Self::E as Pairing>::G2Affine> {
+        sw_special::<P::G2Config>()
+    }
     type E = Bn<P>;
     fn header() -> String {
         format!(
@@ -241,6 +275,12 @@ impl<P: BnConfig> Fam for BnFam<P> {
 /// `HARD` = 1 when the configuration overrides `final_exponentiation_hard_part` (BW6-761)
 struct Bw6Fam<P, const HARD: u8>(PhantomData<P>);
 impl<P: BW6Config, const HARD: u8> Fam for Bw6Fam<P, HARD> {
+    fn special_g1() -> Vec<<Self::E as Pairing>::G1Affine> {
+        sw_special::<P::G1Config>()
+    }
+    fn special_g2() -> Vec<<Self::E as Pairing>::G2Affine> {
+        sw_special::<P::G2Config>()
+    }
     type E = BW6<P>;
     fn header() -> String {
         format!(
@@ -299,6 +339,12 @@ impl BW6Config for Bw6_761Generic {
 
 struct Mnt4Fam<P>(PhantomData<P>);
 impl<P: MNT4Config> Fam for Mnt4Fam<P> {
+    fn special_g1() -> Vec<<Self::E as Pairing>::G1Affine> {
+        sw_special::<P::G1Config>()
+    }
+    fn special_g2() -> Vec<<Self::E as Pairing>::G2Affine> {
+        sw_special::<P::G2Config>()
+    }
     type E = MNT4<P>;
     fn header() -> String {
         format!(
@@ -335,6 +381,12 @@ impl<P: MNT4Config> Fam for Mnt4Fam<P> {
 
 struct Mnt6Fam<P>(PhantomData<P>);
 impl<P: MNT6Config> Fam for Mnt6Fam<P> {
+    fn special_g1() -> Vec<<Self::E as Pairing>::G1Affine> {
+        sw_special::<P::G1Config>()
+    }
+    fn special_g2() -> Vec<<Self::E as Pairing>::G2Affine> {
+        sw_special::<P::G2Config>()
+    }
     type E = MNT6<P>;
     fn header() -> String {
         format!(
@@ -513,6 +565,25 @@ fn run<Fm: Fam>(o: &mut Out, id: &str, rng: &mut Rng, bud: &Budget) {
         let p = g1::<E<Fm>>(&any_fr::<E<Fm>>(rng));
         let q = g2::<E<Fm>>(&any_fr::<E<Fm>>(rng));
         o.line(&format!("pairing {} {} {}", id, pt1::<E<Fm>>(&p), pt2::<E<Fm>>(&q)), &pair_s::<E<Fm>>(&p, &q));
+    }
+
+    // ---- special coordinates (x = 0, ±1, …) against generator and random partners ---------------------
+    {
+        let s1 = Fm::special_g1();
+        let s2 = Fm::special_g2();
+        for p in s1.iter() {
+            for q in [gen2, g2::<E<Fm>>(&nz_fr::<E<Fm>>(rng))] {
+                o.line(&format!("pairing {} {} {}", id, pt1::<E<Fm>>(p), pt2::<E<Fm>>(&q)), &pair_s::<E<Fm>>(p, &q));
+            }
+        }
+        for q in s2.iter() {
+            for p in [gen1, g1::<E<Fm>>(&nz_fr::<E<Fm>>(rng))] {
+                o.line(&format!("pairing {} {} {}", id, pt1::<E<Fm>>(&p), pt2::<E<Fm>>(q)), &pair_s::<E<Fm>>(&p, q));
+            }
+        }
+        if let (Some(p), Some(q)) = (s1.first(), s2.first()) {
+            o.line(&format!("pairing {} {} {}", id, pt1::<E<Fm>>(p), pt2::<E<Fm>>(q)), &pair_s::<E<Fm>>(p, q));
+        }
     }
 
     // ---- conformance: multi-pairings / Miller loops ------------------------------------------------
